@@ -102,6 +102,18 @@ def is_docstring(n):
     return isinstance(n, ast.Expr) and isinstance(n.value, ast.Constant) and isinstance(n.value.value, str)
 
 
+def class_constant(cls, attr):
+    """X = <constant> or X: T = <constant> in a class body"""
+    for st in cls.body:
+        if isinstance(st, ast.Assign) and len(st.targets) == 1 and isinstance(st.targets[0], ast.Name) \
+                and st.targets[0].id == attr and isinstance(st.value, ast.Constant):
+            return st.value.value
+        if isinstance(st, ast.AnnAssign) and isinstance(st.target, ast.Name) and st.target.id == attr \
+                and isinstance(st.value, ast.Constant):
+            return st.value.value
+    return NotImplemented
+
+
 def loops_in(fn):
     ls = [w for w in ast.walk(fn) if isinstance(w, (ast.While, ast.For))]
     ls.sort(key=lambda w: (w.lineno, w.col_offset))
@@ -350,6 +362,13 @@ class Engine:
                     self.oblige('frame', path, zint(old.us) == zint(new.us))
                 return
             if isinstance(old, (Opaque, SeqFn, Closure, BoundMethod)):
+                return
+            if isinstance(old, PyList) and isinstance(new, PyList):
+                if len(old.items) != len(new.items):
+                    self.oblige('frame', path, z3.BoolVal(False))
+                    return
+                for i, (a, b) in enumerate(zip(old.items, new.items)):
+                    walk(f'{path}[{i}]', a, b, seen)
                 return
             if same(old, new):
                 return
@@ -643,7 +662,7 @@ class Engine:
 
     # ------------------------------------------------------------------ loops
     def x_While(self, n):
-        k = self.loop_ids[id(n)]
+        k = self.loop_ids.get(id(n), -1)
         if self.unroll or k not in self.c.loops:
             if not self.unroll:
                 raise Unsupported(f'{self.c.qual}: loop {k} (line {n.lineno}) has no invariant')
@@ -738,7 +757,7 @@ class Engine:
                 return
 
     def x_For(self, n):
-        k = self.loop_ids[id(n)]
+        k = self.loop_ids.get(id(n), -1)
         it = n.iter
         # --- what is iterated
         if isinstance(it, ast.Call) and ast.unparse(it.func) == 'range':
@@ -746,6 +765,8 @@ class Engine:
             lo, hi = (0, args[0]) if len(args) == 1 else (args[0], args[1])
             if len(args) == 3:
                 raise Unsupported('range step')
+            conc = lambda v: z3.simplify(v).as_long() if z3.is_expr(v) and z3.is_int_value(z3.simplify(v)) else v
+            lo, hi = conc(lo), conc(hi)
             get = lambda i: i
         else:
             seq = self.eval(it)
@@ -1016,10 +1037,9 @@ class Engine:
             cls = self.src.find_class(e.value.id)
             if cls is not None:
                 # class attribute with a constant initialiser (e.g. PlayReady.DRM_AES_KEYSIZE_128 = 16)
-                for st in cls.body:
-                    if isinstance(st, ast.Assign) and len(st.targets) == 1 and isinstance(st.targets[0], ast.Name) \
-                            and st.targets[0].id == e.attr and isinstance(st.value, ast.Constant):
-                        return st.value.value
+                cv = class_constant(cls, e.attr)
+                if cv is not NotImplemented:
+                    return cv
                 if self.find_contract(e.value.id, e.attr) is not None:
                     return BoundMethod(Opaque('class:' + e.value.id), e.attr)
         base = self.eval(e.value)
@@ -1084,10 +1104,9 @@ class Engine:
         if isinstance(base, Opaque) and base.what.startswith('class:'):
             cls = self.src.find_class(base.what[6:])
             if cls is not None:
-                for st in cls.body:
-                    if isinstance(st, ast.Assign) and len(st.targets) == 1 and isinstance(st.targets[0], ast.Name) \
-                            and st.targets[0].id == attr and isinstance(st.value, ast.Constant):
-                        return st.value.value
+                cv = class_constant(cls, attr)
+                if cv is not NotImplemented:
+                    return cv
                 if self.find_contract(base.what[6:], attr) is not None:
                     return BoundMethod(base, attr)
         if hasattr(base, 'getattr'):
@@ -1726,9 +1745,8 @@ class Engine:
     def call_contract_or_inline(self, cc, recv, args, kwargs):
         node = Source.get(self.repo, cc.file).find(cc.qual)
         if cc.inline:
-            saved_ids = self.loop_ids
-            if any(isinstance(w, (ast.While, ast.For)) for w in ast.walk(node)):
-                raise Unsupported(f'inline of {cc.qual}: contains a loop')
+            # (loops of an inlined body are fine as long as they iterate over statically known lists;
+            #  symbolic loops there have no contract ordinal and are rejected in x_For / x_While)
             return self.inline(node, None, args, kwargs, recv=recv,
                                cls=cc.qual.split('.')[0] if '.' in cc.qual else None)
         return self.apply_contract(cc, node, recv, args, kwargs)
